@@ -35,7 +35,7 @@ RULE = (
 ASSUMPTIONS = ["models are built from mxlpy.fns only (the must-convert class of the statement)"]
 
 NETWORKS = ["chain", "branch", "cycle", "names"]
-COEFS = ["num", "irr", "pname", "pcomp", "scomp"]  # irr: a measured coefficient, not a ratio of small integers
+COEFS = ["num", "irr", "zero", "pname", "pcomp", "scomp"]  # irr: a measured coefficient, not a ratio of small integers
 METHODS = ["LSODA", "Radau", "BDF"]
 STATES = [[0.5, 2.0, 1.5], [2.0, 0.5, 3.0], [1.0, 1.0, 1.0], [3.0, 0.25, 0.5]]
 
@@ -102,6 +102,7 @@ def _build_model(c, stiff=False):
     coef = {
         "num": 2.0,
         "irr": 0.4321,
+        "zero": 0.0,
         "pname": "kc",
         "pcomp": Derived(fn=fns.twice, args=["kc"]),
         "scomp": Derived(fn=fns.add, args=["x1", "kc"]),
@@ -141,7 +142,7 @@ def build_names_model(c, stiff):
     if c["untouched"]:
         m.add_variable("u", 2.0)
     m.add_parameters({"kin": 2.0, "k": 1000.0 if stiff else 1.5, "kf": 0.75, "kr": 0.25, "kc": 2.0, "x": 1.25})
-    coef = {"num": 2.0, "irr": 0.4321, "pname": "kc", "pcomp": Derived(fn=fns.twice, args=["kc"]), "scomp": Derived(fn=fns.add, args=["s1", "kc"])}[c["coef"]]
+    coef = {"num": 2.0, "irr": 0.4321, "zero": 0.0, "pname": "kc", "pcomp": Derived(fn=fns.twice, args=["kc"]), "scomp": Derived(fn=fns.add, args=["s1", "kc"])}[c["coef"]]
     for name in c["dorder"]:
         # d1 = y / x (div(x, y) with swapped names), d2 = minus(x, y) called as (y, d1), d3 = add(d2, kf)
         fn, args = {"d1": (fns.div, ["y", "x"]), "d2": (fns.minus, ["y", "d1"]), "d3": (fns.add, ["d2", "kf"])}[name]
@@ -175,7 +176,7 @@ def generate(tier):
     # simulation with Jacobian: fewer shapes (each run integrates a stiff system three times)
     sim_flags = flags if tier == "thorough" else [(0, 0, 0, 0), (1, 1, 0, 0), (0, 0, 1, 1)]
     sim_orders = dorders if tier == "thorough" else [[], ["d1"], ["d2", "d1"], ["d3", "d1", "d2"]]
-    for net, dorder, coef, (untouched, time, ia, ratedep), method in it.product(NETWORKS, sim_orders, COEFS if tier == "thorough" else [c for c in COEFS if c != "irr"], sim_flags, METHODS):
+    for net, dorder, coef, (untouched, time, ia, ratedep), method in it.product(NETWORKS, sim_orders, COEFS if tier == "thorough" else [c for c in COEFS if c not in ("irr", "zero")], sim_flags, METHODS):
         if net == "names" and (ia or ratedep):
             continue
         cases.append({"net": net, "dorder": dorder, "coef": coef, "untouched": untouched, "time": time, "ia": ia,
